@@ -53,7 +53,26 @@ N3 ==
     /\ dev = Cfg(A, [n \in {"Netspoc-" \o x : x \in UsedG(A, {"g0", "g1"})} |-> IF n = "Netspoc-g0" THEN da ELSE db], FALSE)
     /\ tgt = Cfg(B, [n \in {"Netspoc-" \o x : x \in UsedG(B, {"g0", "g1"})} |-> IF n = "Netspoc-g0" THEN ta ELSE tb], FALSE)
 
-Init == CASE Fam = "N3" -> N3 [] Fam = "N1" -> N1 [] Fam = "N2" -> N2
+(* M1: merge of the Netspoc policies with a raw file (C18): raw rules join the policy of the same id, *)
+(* other raw policies are added; NSX orders rules by sequence number, there is no APPEND             *)
+RawV1 == {[id |-> "raw1", r |-> R(10, "ALLOW", "OUT", "10.9.9.9", "ANY", "ANY")],
+          [id |-> "raw2", r |-> R(40, "DROP", "OUT", "ANY", "10.9.9.9", "ANY")]}
+RawV2 == {[id |-> "raw3", r |-> R(20, "ALLOW", "IN", "10.9.9.8", "ANY", "ANY")]}
+FnOf(S) == [k \in {x.id : x \in S} |-> (CHOOSE x \in S : x.id = k).r]
+M1 ==
+  \E A \in SubsetsUpTo(Bodies("g0", "g1"), MaxLen), r1 \in SUBSET RawV1, r2 \in SUBSET RawV2 :
+    /\ r1 \cup r2 # {}
+    /\ LET gm == [n \in {"Netspoc-" \o x : x \in UsedG(A, {"g0", "g1"})} |-> {"10.1.1.10", "10.1.1.20"}]
+           v4 == Cfg(A, gm, FALSE)
+           rawpol == [p \in (IF r1 # {} THEN {"Netspoc-v1"} ELSE {}) \cup (IF r2 # {} THEN {"Netspoc-v2"} ELSE {}) |->
+                        IF p = "Netspoc-v1" THEN FnOf(r1) ELSE FnOf(r2)]
+           mpol == [p \in {"Netspoc-v1"} \cup DOMAIN rawpol |->
+                      IF p = "Netspoc-v1" THEN (IF r1 # {} THEN v4.policies[p] @@ FnOf(r1) ELSE v4.policies[p]) ELSE FnOf(r2)]
+       IN /\ dev = [policies |-> NoFn, groups |-> NoFn, services |-> NoFn]
+          /\ tgt = v4 @@ [parts |-> [craw |-> [policies |-> rawpol, groups |-> NoFn, services |-> NoFn],
+                                     merged |-> [policies |-> mpol, groups |-> gm, services |-> v4.services]]]
+
+Init == CASE Fam = "M1" -> M1 [] Fam = "N3" -> N3 [] Fam = "N1" -> N1 [] Fam = "N2" -> N2
 Next == UNCHANGED <<dev, tgt>>
 HasTie == \E g, h \in DOMAIN dev.groups : g # h /\ dev.groups[g] = dev.groups[h]
 Out == PrintT(<<"VOUT", ToJson([fam |-> Fam, dev |-> dev, tgt |-> tgt, tie |-> HasTie])>>)
